@@ -232,6 +232,12 @@ func (u *PacketUnderlay) RunEventLoop(ctx context.Context) error {
 		} else if isDataAckProtocol(seg.metadata.Protocol()) {
 			das, _ := toDataAckStruct(seg.metadata)
 			session, ok := u.sessionMap.Load(das.sessionID)
+			if ok && !u.segmentUserOwnsSession(session.(*Session), seg) {
+				// The session ID belongs to a different user.
+				// For this user the session is not registered.
+				log.Debugf("%v received a segment of user %q from peer %v for session %d owned by a different user", u, seg.block.BlockContext().UserName, addr, das.sessionID)
+				ok = false
+			}
 			if !ok {
 				log.Debugf("Session %d is not registered to %v", das.sessionID, u)
 				if u.isClient || seg.block != nil {
@@ -332,10 +338,39 @@ func (u *PacketUnderlay) onCloseSession(seg *segment) error {
 		return nil
 	}
 	s := session.(*Session)
+	if !u.segmentUserOwnsSession(s, seg) {
+		return fmt.Errorf("session ID %d is owned by a different user", sessionID)
+	}
 	if !u.deliverSegmentToSession(s, seg) && log.IsLevelEnabled(log.TraceLevel) {
 		log.Tracef("%v ignored closeSessionRequest or closeSessionResponse segment for closed session %d", u, sessionID)
 	}
 	return nil
+}
+
+// segmentUserOwnsSession returns false if the segment was authenticated with
+// the credential of a user that is not the owner of the session.
+//
+// A server packet underlay is shared by all the users, and the session ID
+// in the metadata is selected by the peer. A segment is only delivered to
+// a session if it is authenticated by the user that opened the session.
+func (u *PacketUnderlay) segmentUserOwnsSession(s *Session, seg *segment) bool {
+	if u.isClient || seg.block == nil {
+		return true
+	}
+	owner := s.UserName()
+	if policy := s.userPolicy.Load(); policy != nil && policy.Name() != "" {
+		owner = policy.Name()
+	}
+	if owner == "" {
+		if sessionBlock := s.block.Load(); sessionBlock != nil {
+			owner = (*sessionBlock).BlockContext().UserName
+		}
+	}
+	if owner == "" {
+		// The owner is not known yet. It is determined by the first segment.
+		return true
+	}
+	return owner == seg.block.BlockContext().UserName
 }
 
 func (u *PacketUnderlay) readOneSegment() (*segment, net.Addr, error) {
